@@ -143,6 +143,14 @@ example : setArrayItems [0x9f, 0xa0, 0xb8, 0x01, 0x00, 0x00, 0xff] 2 = some [(1,
 example : setArrayItems [0x9f, 0xa0, 0xb8, 0x01, 0x00, 0x00, 0xff] 3 = none := by decide
 example : setArrayItems [0x98, 0x02, 0xa0, 0xa0] 1 = none := by decide
 
+/-- Regenerated too: which transaction-body and witness-set types preserve bytes today (only
+    Mary bodies and Babbage witness sets) — the complement is the recorded finding classes
+    `reencode-body` / `reencode-wit`; a type gaining the stored-bytes MarshalCBOR changes this
+    statement (and shrinks the known class) on the next run. -/
+theorem bodies_and_witness_sets_today :
+    (GV.Model.PreserveTypes.eras.filter fun e => GV.Model.PreserveTypes.preservesKind "body" e) = ["mary"] ∧
+    (GV.Model.PreserveTypes.eras.filter fun e => GV.Model.PreserveTypes.preservesKind "wit" e) = ["babbage"] := by decide
+
 /-- **Regenerated tie for clause (3).** In the Go source as it stands now, the block type and
     the block-header type of EVERY era (Byron..Dijkstra) have a MarshalCBOR — their own or one
     promoted from an embedded header type — that returns the stored wire bytes. The table is
